@@ -369,6 +369,9 @@ class FuncAnalysis:
         self.calls = []
         self.all_w = any(f == func.short and h == "*" for (f, h, k) in
                          prog.whitelist)
+        self._scalars = None
+        self.selflike = set()
+        self.notselflike = set(func.params) | set(func.kwonly)
         self.container_names = set()
         self.noncontainer_names = set(func.params) | set(func.kwonly)
         node = func.node
@@ -471,6 +474,10 @@ class FuncAnalysis:
         elif isinstance(st, ast.AugAssign):
             v = self.ev(st.value)
             cur = self.ev_target_load(st.target)
+            if isinstance(st.target, ast.Name) and \
+                    st.target.id in self.scalar_names():
+                # number/string accumulator: `x += e` only rebinds x
+                return
             # in-place mutation of the current object (lists), then rebinding
             self.write(cur, "[]", st, "augassign")
             self.assign(st.target, cur | wrap(deref(v, "[]"), "[]") | v, st)
@@ -542,10 +549,48 @@ class FuncAnalysis:
             return deref(self.ev(t.value), "[]")
         return EMPTY
 
+    def scalar_names(self):
+        """locals initialised from a number/string/None constant"""
+        if self._scalars is None:
+            out = set()
+            for n in walk_no_nested(self.func.node):
+                if isinstance(n, ast.Assign) and \
+                        isinstance(n.value, ast.Constant) and \
+                        isinstance(n.value.value, (int, float, str, type(None))):
+                    for t in n.targets:
+                        if isinstance(t, ast.Name):
+                            out.add(t.id)
+            self._scalars = out
+        return self._scalars
+
+    def is_selflike_expr(self, val):
+        """self, self.clone(), self.__class__(...): same class as self"""
+        if isinstance(val, ast.Name):
+            return val.id == self.self_name or val.id in self.selflike
+        if isinstance(val, ast.Call) and isinstance(val.func, ast.Attribute):
+            f = val.func
+            if isinstance(f.value, ast.Name) and (
+                    f.value.id == self.self_name or
+                    f.value.id in self.selflike):
+                return f.attr in ("clone", "__class__")
+        return False
+
+    def is_self_node(self, node):
+        return isinstance(node, ast.Name) and self.self_name is not None and \
+            (node.id == self.self_name or node.id in self.selflike)
+
     def assign(self, t, v, st):
         if isinstance(t, ast.Name):
             self.bind(t.id, v)
             val = getattr(st, "value", None)
+            if isinstance(st, ast.Assign) and val is not None and \
+                    self.self_name is not None and t.id != self.self_name:
+                if self.is_selflike_expr(val) and \
+                        t.id not in self.notselflike:
+                    self.selflike.add(t.id)
+                else:
+                    self.notselflike.add(t.id)
+                    self.selflike.discard(t.id)
             if isinstance(st, ast.Assign) and val is not None:
                 if self.is_container_expr(val):
                     if t.id not in self.noncontainer_names:
@@ -585,8 +630,7 @@ class FuncAnalysis:
     def store_attr(self, t, base, v, st):
         attr = t.attr
         prog = self.prog
-        is_self = isinstance(t.value, ast.Name) and \
-            t.value.id == self.self_name
+        is_self = self.is_self_node(t.value)
         callees = []
         how = "store"
         if is_self:
@@ -608,7 +652,8 @@ class FuncAnalysis:
         # the plain instance-attribute store itself
         mangled = attr
         self.write(base, mangled, t, "attr-store")
-        if isinstance(t.value, ast.Name) and v and not is_self:
+        if isinstance(t.value, ast.Name) and v and \
+                t.value.id != self.self_name:
             # a local object now also holds v (field-insensitive)
             self.bind(t.value.id, wrap(v, attr))
 
@@ -818,8 +863,7 @@ class FuncAnalysis:
     def load_attr(self, node, base):
         attr = node.attr
         prog = self.prog
-        is_self = isinstance(node.value, ast.Name) and \
-            node.value.id == self.self_name
+        is_self = self.is_self_node(node.value)
         out = EMPTY
         callees = []
         plain = True
@@ -1075,9 +1119,13 @@ class FuncAnalysis:
         callees = []
         if new is not None:
             callees.append(new)
-            # __new__(cls, *args): first parameter is the class
+            # __new__(cls, *args): first parameter is the class.  The identity
+            # constructors of gfapy (OrientedLine, SegmentEnd, Alignment,
+            # LastPos) can return their argument only when called with one
+            # positional argument.
             r = self.apply_call(new, EMPTY, args, kwargs, node, is_new=True)
-            out |= r
+            if len(args) == 1:
+                out |= r
         if init is not None:
             callees.append(init)
             self.apply_call(init, EMPTY, args, kwargs, node, want_ret=False)
@@ -1153,8 +1201,7 @@ class FuncAnalysis:
             return wrap(allargs)
         recv_node = f.value
         recv = self.ev(recv_node)
-        is_self = isinstance(recv_node, ast.Name) and \
-            recv_node.id == self.self_name
+        is_self = self.is_self_node(recv_node)
         if isinstance(recv_node, ast.Name) and recv_node.id == "cls" and \
                 self.func.kind == "classmethod":
             is_self = True
